@@ -101,11 +101,8 @@ Definition concmem_refines_qstep_stmt : Prop :=
       (forall mb, sget mb (q_store q) = x_box (getx mb s)).
 
 (** "Every operation completes" (audit item 5): the number of productive steps of any schedule is bounded.
-    Memory-store model: PROVED in Proofs/ConcMemTerm.v (every step strictly decreases a measure; explicit bound
-    mem_step_bound).  File-store model: NOT PROVED (deadlock freedom says only that some party can always move).
-    Sketch for the file side: every step moves a program counter forward along an acyclic program; the walk's
-    remaining work is a polynomial in the numbers of directories of the three levels, and those grow only by a
-    delivery's mkdir step, of which there is at most one per delivery. *)
+    PROVED for both models: every step strictly decreases a measure — Proofs/ConcMemTerm.v (mem_terminates_holds,
+    explicit bound mem_step_bound) and Proofs/ConcFileTerm.v (file_terminates_holds, file_step_bound). *)
 Fixpoint productive (s : msys) (sched : list (who * nat)) : nat :=
   match sched with
   | [] => 0
